@@ -751,7 +751,7 @@ theorem mkHooks_geval_perm (u : UEnv) (m : Machine) (b : Bool) (f g : Snd) :
   exact evalGuard_perm m h.cfg _ ge
 
 theorem hooksFlagged_perm (u : UEnv) (m : Machine) : HooksPerm m (hooksFlagged u m) :=
-  ⟨fun e _ _ h => h.enqueueQ false e, fun e _ _ h => h.enqueueQ false e, mkHooks_geval_perm u m _ _ _⟩
+  ⟨fun e _ _ h => h.enqueueQ true e, fun e _ _ h => h.enqueueQ true e, mkHooks_geval_perm u m _ _ _⟩
 theorem hooksAsyncStart_perm (u : UEnv) (m : Machine) : HooksPerm m (hooksAsyncStart u m) :=
   ⟨fun e _ _ h => h.enqueueQ false e, fun e _ _ h => h.enqueueQ false e, mkHooks_geval_perm u m _ _ _⟩
 theorem hooksAsync_perm (u : UEnv) (m : Machine) : HooksPerm m (hooksAsync u m) := by
